@@ -114,6 +114,36 @@ fn c03_queries_leaves_recomputed() {
     }
 }
 
+
+// value sections that are NOT a whole number of rows for the expected number of queries (trailing bytes that no opened value
+// accounts for, or a missing byte) are rejected
+macro_rules! c03_queries_value_len {
+    ($name:ident, $nbytes:expr) => {
+        #[kani::proof]
+        #[kani::unwind(12)]
+        #[kani::stub(alloc::fmt::format, nofmt)]
+        fn $name() {
+            // values: $nbytes bytes for 2 queries x 1 two-byte element; paths: [2][1][8 bytes][1][8 bytes] = 19 bytes
+            let mut bytes: [u8; 4 + $nbytes + 4 + 19] = kani::any();
+            bytes[0] = $nbytes; bytes[1] = 0; bytes[2] = 0; bytes[3] = 0;
+            bytes[4 + $nbytes] = 19; bytes[5 + $nbytes] = 0; bytes[6 + $nbytes] = 0; bytes[7 + $nbytes] = 0;
+            bytes[8 + $nbytes] = 2; bytes[9 + $nbytes] = 1; bytes[18 + $nbytes] = 1;
+            let mut r = SliceReader::new(&bytes);
+            let q = Queries::read_from(&mut r).unwrap();
+            let p = q.parse::<PH, T>(8, 2, 1);
+            assert!(p.is_err());
+            kani::cover!(true);
+            core::mem::forget(p);
+        }
+    };
+}
+// @ob id=C03 also=C06 tier=quick req=1 to=900 fs=1 name=c03_queries_value_len_5 funcs="Queries::read_from,Queries::parse,Table::from_bytes" bounds="5 value bytes for 2 queries of one 2-byte element (one trailing byte)" sym="all value bytes, node digests" enum="length of the value section" desc="a value section with bytes beyond the expected rows is rejected"
+c03_queries_value_len!(c03_queries_value_len_5, 5);
+// @ob id=C03 also=C06 tier=quick req=1 to=900 fs=1 name=c03_queries_value_len_3 funcs="Queries::read_from,Queries::parse,Table::from_bytes" bounds="3 value bytes for 2 queries of one 2-byte element (one byte missing)" sym="all value bytes, node digests" enum="length of the value section" desc="a short value section is rejected"
+c03_queries_value_len!(c03_queries_value_len_3, 3);
+// @ob id=C03 also=C06 tier=quick req=1 to=900 fs=1 name=c03_queries_value_len_6 funcs="Queries::read_from,Queries::parse,Table::from_bytes" bounds="6 value bytes for 2 queries of one 2-byte element (one surplus row)" sym="all value bytes, node digests" enum="length of the value section" desc="a value section with a surplus row is rejected"
+c03_queries_value_len!(c03_queries_value_len_6, 6);
+
 // @ob id=C03 tier=quick req=1 to=600 expect=fail desc="vacuity twin: an accepted commitments parse reaches the comparison"
 #[kani::proof]
 #[kani::unwind(28)]
